@@ -812,6 +812,26 @@ Theorem select_vouched_for_loaded_dict_refuted :
 Proof. exact select_vouched_for_loaded_dict_refuted_l. Qed.
 Print Assumptions select_vouched_for_loaded_dict_refuted.
 
+(* ---- a loaded dictionary stays in force, also next to a set of referenced DDicts (finding
+   C16-refmulti-select-destroys-loaded-dictionary, fix d0ddbff) ---- *)
+Theorem d_loaded_sticky : forall ops w o k,
+  Forall (fun x => d_drop o x = false) ops -> d_loaded (get_d w o) k ->
+  d_loaded (get_d (run w ops) o) k /\ forall fid, d_next_use (get_d (run w ops) o) fid = DK_local k.
+Proof. exact d_loaded_sticky_l. Qed.
+Print Assumptions d_loaded_sticky.
+
+Theorem d_load_gives_loaded : forall d k, d_stage d = S_init -> k <> 0 -> d_loaded (fst (dctx_load d k)) k.
+Proof. exact ParamProofs3.d_load_gives_loaded. Qed.
+Print Assumptions d_load_gives_loaded.
+
+Theorem selection_destroyed_loaded_dictionary_refuted :
+  dd_kind (dd_select_any true (dd_with_last (d_dict r3_loaded2) 1) 1) = DK_ref 1
+  /\ dd_kind (dd_select true (dd_with_last (d_dict r3_loaded2) 1) 1) = DK_local 2
+  /\ d_loaded r3_loaded2 2 /\ dd_set (d_dict r3_loaded2) = Some [1]
+  /\ snd (dctx_dec_stream (fst (dctx_dec_stream r3_loaded2 1)) 2) = Ok.
+Proof. exact selection_destroyed_loaded_dictionary_refuted_l. Qed.
+Print Assumptions selection_destroyed_loaded_dictionary_refuted.
+
 (* ---- the deprecated stream initialisers (InitModel.v): ZSTD_initCStream* / ZSTD_resetCStream ---- *)
 Theorem init_chain_leaves_init_stage : forall w o y l, init_chain o y = Some l ->
   fst (ystep w y) = fst (xseq w (reset_session o :: l)) /\ c_stage (xget_c (fst (ystep w y)) o) = S_init.
